@@ -292,9 +292,9 @@ func (f *file) Write(p []byte) (n int, err error) {
 }
 
 func (f *file) WriteBlob(p blob.Blob) (n int, err error) {
-	n, err = f.writeBlobAt("write", p, f.offset)
-	f.offset += int64(n)
-	return
+	n, off, err := f.writeBlobAt("write", p, f.offset)
+	f.offset = off + int64(n) // off is the end of the file for a handle opened with FlagAppend
+	return n, err
 }
 
 func (f *file) WriteAt(p []byte, off int64) (n int, err error) {
@@ -302,20 +302,27 @@ func (f *file) WriteAt(p []byte, off int64) (n int, err error) {
 }
 
 func (f *file) WriteBlobAt(p blob.Blob, off int64) (n int, err error) {
-	return f.writeBlobAt("writeat", p, off)
+	if f.fileData != nil && f.flag&hackpadfs.FlagAppend != 0 {
+		// like os.File: a positioned write makes no sense on a handle that always writes at the end
+		return 0, &hackpadfs.PathError{Op: "writeat", Path: f.path, Err: errors.New("invalid use of WriteAt on file opened with O_APPEND")}
+	}
+	n, _, err = f.writeBlobAt("writeat", p, off)
+	return n, err
 }
 
-func (f *file) writeBlobAt(op string, p blob.Blob, off int64) (n int, err error) {
+// writeBlobAt writes 'p' at 'off', or at the end of the file if the handle was opened with FlagAppend.
+// Returns the offset the write was made at.
+func (f *file) writeBlobAt(op string, p blob.Blob, off int64) (n int, writeOff int64, err error) {
 	if f.fileData == nil {
-		return 0, f.closedErr(op)
+		return 0, off, f.closedErr(op)
 	}
 	if f.Mode().IsDir() {
-		return 0, &hackpadfs.PathError{Op: op, Path: f.path, Err: hackpadfs.ErrIsDir}
+		return 0, off, &hackpadfs.PathError{Op: op, Path: f.path, Err: hackpadfs.ErrIsDir}
 	}
 	// load the contents first, so the size is the file's current size and not the size when it was opened
 	data, err := f.Data()
 	if err != nil {
-		return 0, &hackpadfs.PathError{Op: op, Path: f.path, Err: err}
+		return 0, off, &hackpadfs.PathError{Op: op, Path: f.path, Err: err}
 	}
 	size := int64(data.Len())
 	if f.flag&hackpadfs.FlagAppend != 0 {
@@ -323,30 +330,38 @@ func (f *file) writeBlobAt(op string, p blob.Blob, off int64) (n int, err error)
 	}
 	if off < 0 {
 		// reject before growing the file, a failed write must leave the contents unchanged
-		return 0, &hackpadfs.PathError{Op: op, Path: f.path, Err: errors.New("negative offset")}
+		return 0, off, &hackpadfs.PathError{Op: op, Path: f.path, Err: errors.New("negative offset")}
+	}
+	if p.Len() == 0 {
+		// nothing to write: like os.File, an empty write beyond the end does not extend the file
+		return 0, off, nil
 	}
 
 	endIndex := off + int64(p.Len())
 	if size < endIndex {
 		err = blob.Grow(data, endIndex-size)
 		if err != nil {
-			return 0, &hackpadfs.PathError{Op: op, Path: f.path, Err: err}
+			return 0, off, &hackpadfs.PathError{Op: op, Path: f.path, Err: err}
 		}
 	}
 	n, err = blob.Set(data, p, off)
 	if err != nil {
-		return n, &hackpadfs.PathError{Op: op, Path: f.path, Err: err}
+		return n, off, &hackpadfs.PathError{Op: op, Path: f.path, Err: err}
 	}
 	if n != 0 {
 		f.updateModTime()
 	}
 	err = f.save()
-	return
+	return n, off, err
 }
 
 func (f *file) Stat() (hackpadfs.FileInfo, error) {
 	if f.fileData == nil {
 		return nil, f.closedErr("stat")
+	}
+	if !f.Mode().IsDir() {
+		// load the contents, so the reported size is the file's current size and not the size when it was opened
+		_, _ = f.Data()
 	}
 	return fileInfo{Record: &f.runOnceFileRecord, Path: f.path}, nil
 }
